@@ -253,6 +253,21 @@ impl Payload for String {
     }
 }
 
+/// large plain-data payload (no drop glue, 32 bytes): implementations may treat big values
+/// differently from small ones
+#[derive(Clone, Debug, Default, PartialEq)]
+pub struct Wide(pub [u64; 4]);
+
+impl Payload for Wide {
+    const NAME: &'static str = "wide";
+    fn from_serial(s: u64) -> Self {
+        Wide([s, !s, s.rotate_left(17), 0x5eed ^ s])
+    }
+    fn serial(&self) -> Option<u64> {
+        Some(self.0[0])
+    }
+}
+
 /// set value carrying its own key
 #[derive(Clone, Debug, Default, PartialEq)]
 pub struct SItem<P> {
